@@ -11,7 +11,7 @@ namespace GocoinV.Mempool
 /-- one iteration of `mined` does not raise the panic flag in a state that satisfies the loop invariant -/
 theorem minedStep_alive {K : Keys} {W : Tx → Prop} {rank : TxId → Nat} {u0 : UT} {ν : OutPoint → Nat}
     {A : OutPoint → Prop} {Cf : TxId → Prop} (U : Univ2 K W rank u0 ν) (hAC : ∀ o, A o → Cf o.1)
-    (t : T2S) (n : Nat) (s : State) (h : MinedInv K W ν A Cf t n s) :
+    (t : T2S) (n : Nat) (hn : n < t.tx.outs.length) (s : State) (h : MinedInv K W ν A Cf t n s) :
     (minedStep K t s n).panicked = s.panicked := by
   have hb := h.ok.w.base
   obtain ⟨t', ht', htx⟩ := h.self
@@ -35,7 +35,7 @@ theorem minedStep_alive {K : Keys} {W : Tx → Prop} {rank : TxId → Nat} {u0 :
         obtain ⟨j, hj, hju⟩ := iidx_spec K r _ idx hidx
         have hjm : j ∈ r.tx.ins := List.mem_of_getElem? hj
         have hrW := hb.poolW _ _ hr
-        obtain ⟨jp, jv⟩ := U.uidx_play _ _ _ _ (Play.prev hrW hjm) (Play.self htW) hju
+        obtain ⟨jp, jv⟩ := U.uidx_play _ _ _ _ (Play.prev hrW hjm) (Play.self htW) (VPlay.vin hrW hjm) (VPlay.out htW hn) hju
         have hf : flag r idx = false := flag_nil r (by simpa using he) idx
         rcases h.ok.w.unf _ _ hr idx j hj hf with ha | ⟨_, h2⟩
         · have := hAC _ ha
@@ -55,20 +55,23 @@ theorem minedFlags_panicked {K : Keys} {W : Tx → Prop} {rank : TxId → Nat} {
   | false =>
     rw [minedFlags_eq]
     unfold iota
-    have gen : ∀ n, ((List.range n).foldl (minedStep K t) s).panicked = false ∧
+    have gen : ∀ n, n ≤ t.tx.outs.length → ((List.range n).foldl (minedStep K t) s).panicked = false ∧
         MinedInv K W ν A Cf t n ((List.range n).foldl (minedStep K t) s) := by
       intro n
       induction n with
       | zero =>
+        intro _
         exact ⟨hs, ⟨h.w.mono (fun _ _ _ _ _ _ _ ha => Or.inl ha) (fun _ _ _ hc => hc), h.par⟩,
           ⟨t, hin, rfl⟩, fun _ _ _ _ _ _ _ _ => Nat.zero_le _⟩
       | succ n ih =>
+        intro hle
         rw [List.range_succ, List.foldl_append]
         simp only [List.foldl_cons, List.foldl_nil]
+        have ih := ih (by omega)
         have hp' : (minedStep K t ((List.range n).foldl (minedStep K t) s) n).panicked = false :=
-          (minedStep_alive U hAC t n _ ih.2).trans ih.1
-        exact ⟨hp', minedStep_ok U hAC t n _ ih.2 hp'⟩
-    exact (gen _).1
+          (minedStep_alive U hAC t n (by omega) _ ih.2).trans ih.1
+        exact ⟨hp', minedStep_ok U hAC t n (by omega) _ ih.2 hp'⟩
+    exact (gen _ (Nat.le_refl _)).1
 
 /-- … in particular in a state that satisfies `PGood` over a chain side with `ChainOK` -/
 theorem minedFlags_panicked_good {K : Keys} {W : Tx → Prop} {rank : TxId → Nat} {u0 : UT} {ν : OutPoint → Nat}
